@@ -98,8 +98,11 @@ pub fn generate(scope: &str, name: &str, seed: u64, k: u64, rng: &mut Rng, tier:
                 _ => Profile::maint_heavy(),
             };
             p.maint_percent = 100;
-            let mut inst = gen_instance(rng, &p);
-            if rng.chance(if std::env::var("RSV_SEARCH_PROFILE").is_ok() { 100 } else { 70 }) {
+            // one case in 25: a fleet several times larger than the network (the search needs more
+            // accepted steps than the network has nodes)
+            let long = pick == 9 || (std::env::var("RSV_SEARCH_PROFILE").is_err() && rng.chance(4));
+            let mut inst = if long { crate::inst::long_trajectory_instance(rng) } else { gen_instance(rng, &p) };
+            if !long && rng.chance(if std::env::var("RSV_SEARCH_PROFILE").is_ok() { 100 } else { 70 }) {
                 inst.c_service = rng.range(0, 2);
                 inst.c_dh = rng.range(5, 20);
                 inst.c_idle = rng.range(0, 3);
@@ -192,6 +195,10 @@ pub fn rerun(text: &str) -> String {
         "mcf" => match load_or_report(inst) {
             Err(s) => head + &s,
             Ok(ctx) => head + &ctx.inst.to_text() + &mcf::run(&ctx),
+        },
+        "search" => match load_or_report(inst) {
+            Err(s) => head + &s,
+            Ok(ctx) => head + &ctx.inst.to_text() + &search::run(&ctx),
         },
         "swaps" => {
             // regenerated from the seed of the header (the walk depends on the real neighbourhood)
